@@ -30,7 +30,7 @@ Record ttask := mkTT {
   tt_nparents : Z;            (* len(task_graph.get_parents(task)): ALL parents in the graph *)
   tt_sink : bool }.           (* task_graph.is_sink_task(task) *)
 
-Record tworker := mkTW { tw_idx : Z; tw_total : rvec; tw_avail : rvec }.
+Record tworker := mkTW { tw_idx : Z; tw_total : rvec }.
 
 Record tinst := mkTI {
   ti_flavour : flavour;
@@ -62,8 +62,9 @@ Definition past_deadline (start runtime deadline : Z) : bool := deadline <? star
 (* admission test of the CPLEX scheduler: deadline < sim_time + fastest runtime *)
 Definition hopeless (deadline now fastest : Z) : bool := deadline <? now + fastest.
 
-(* ---- compatibility: Worker.can_accomodate_strategy on a deepcopy of the worker WITH its
-   current allocations: every resource requested is AVAILABLE now in the requested quantity.
+(* ---- compatibility: Worker.can_accomodate_strategy on a deepcopy of the worker, which RESETS the
+   allocations (Worker.__deepcopy__ / Resources.__deepcopy__): every resource requested is within the worker's
+   TOTAL quantity.
    (`strategy not in compatible_strategies` goes through ExecutionStrategy.__eq__; CPython evaluates
    `item == value`, under which an equal compatible strategy requests at least what this one does,
    so membership coincides with fitting; the correspondence stream exercises such twins.) *)
@@ -76,7 +77,7 @@ Definition is_running (t : ttask) : bool := match tt_state t with SRunning _ _ _
 
 (* status of the cell (worker w, slot time t, strategy index s) of a NON-running task *)
 Definition cell_kind (I : tinst) (x : ttask) (w : tworker) (t : Z) (s : strat) : cellk :=
-  if negb (fits (tw_avail w) s) then CConst 0
+  if negb (fits (tw_total w) s) then CConst 0
   else if t <? tt_release x then CConst 0
   else if ti_enforce I && past_deadline t (st_runtime s) (tt_deadline x) then CConst 0
   else CVar.
@@ -184,7 +185,7 @@ Definition task_rows (I : tinst) (x : ttask) : list constr :=
   match ti_flavour I with
   | Gurobi => []
   | Cplex => [CLin (RRewardRow id)
-                ((reward_den I, VReward id) ::
+                ((1, VReward id) ::
                  map (fun c => match c with (_, t, _) => (- reward_num I t, cell_var x c) end) (var_cells I x)) SEq 0]
   end.
 
@@ -262,14 +263,25 @@ Definition cap_const (I : tinst) (w : tworker) (r t : Z) (x : ttask) : Z :=
   | SRunning w' s _ => if (w' =? tw_idx w) && occupies (ti_now I) (st_runtime s) t then rget (st_req s) r else 0
   | _ => 0
   end.
+(* a RUNNING task contributes a (constant) term: active on w at t with a non-zero request for r *)
+Definition cap_running_term (I : tinst) (w : tworker) (r t : Z) (x : ttask) : bool :=
+  match tt_state x with
+  | SRunning w' s _ => (w' =? tw_idx w) && occupies (ti_now I) (st_runtime s) t && negb (rget (st_req s) r =? 0)
+  | _ => false
+  end.
 Definition cap_rows (I : tinst) : list constr :=
   flat_map (fun t => flat_map (fun w => flat_map (fun rq =>
      let e := flat_map (cap_terms I w (fst rq) t) (ti_tasks I) in
      let c := fold_right Z.add 0 (map (cap_const I w (fst rq) t) (ti_tasks I)) in
-     match e with
-     | [] => []
-     | _ => if snd rq =? 0 then [] else [CLin (RCap (fst rq) (tw_idx w) t) e SLe (snd rq - c)]
-     end) (uniq_types (tw_total w))) (ti_workers I)) (slots I).
+     (* Gurobi skips the row when the expression has no VARIABLE term (LinExpr.size() == 0); the CPLEX version
+        counts the constant terms of running tasks too (len(resource_constraint_terms) == 0) *)
+     let empty := match e, ti_flavour I with
+                  | [], Gurobi => true
+                  | [], Cplex => forallb (fun x => negb (cap_running_term I w (fst rq) t x)) (ti_tasks I)
+                  | _, _ => false
+                  end in
+     if empty || (snd rq =? 0) then [] else [CLin (RCap (fst rq) (tw_idx w) t) e SLe (snd rq - c)])
+     (uniq_types (tw_total w))) (ti_workers I)) (slots I).
 
 (* ---- objective (numerators over reward_den) *)
 Definition rewarded (I : tinst) (x : ttask) : bool := negb (ti_release_tg I) || tt_sink x.
@@ -405,3 +417,59 @@ Fixpoint zlist_eqb (x y : list Z) : bool :=
 Definition var_eqb (a b : var) : bool := zlist_eqb (var_key a) (var_key b).
 Definition assign_of_list (l : list (var * Z)) : assignment :=
   fun v => match find (fun p => var_eqb (fst p) v) l with Some p => snd p | None => 0 end.
+
+(* ---- comparison of a generated system with the canonicalised dump of the live solver model:
+   [model vars not in dump; dump vars not in model; model rows not in dump; dump rows not in model;
+    objective equal; denominator equal; same numbers of vars and rows] *)
+Definition val_in (v : val) (l : list val) : bool := existsb (val_eqb v) l.
+Definition list_diff (a b : list val) : list val := filter (fun v => negb (val_in v b)) a.
+Definition csys_diff (cs : csys) (e : val) : val :=
+  match e with
+  | L [L ev; L er; eo; I ed] =>
+      let mv := map v_vdecl (cs_vars cs) in
+      let mr := map v_constr (cs_rows cs) in
+      L [L (list_diff mv ev); L (list_diff ev mv); L (list_diff mr er); L (list_diff er mr);
+         vbool (val_eqb (v_lin (cs_obj cs)) eo); vbool (ed =? cs_obj_den cs);
+         vbool ((Z.of_nat (length mv) =? Z.of_nat (length ev)) && (Z.of_nat (length mr) =? Z.of_nat (length er)))]
+  | _ => L [I (-1)]
+  end.
+
+(* decoding of variables written by the harness as key lists *)
+Definition var_of_key (k : list Z) : var :=
+  match k with
+  | [0; x; w; t; s] => VCell x w t (Z.to_nat s)
+  | [1; x; t] => VPlacedAt x t | [2; x; t] => VNotPlacedAt x t | [3; x; t] => VPhase x t
+  | [4; x] => VStart x | [5; x] => VIsPlaced x | [6; x] => VAllPar x | [7; x] => VReward x
+  | _ => VStart (-1)
+  end.
+Definition assign_of_keys (l : list (list Z * Z)) : assignment :=
+  assign_of_list (map (fun p => (var_of_key (fst p), snd p)) l).
+
+(* ---- decidable monitors applied to the Placements the implementation returns.  They are PlanSpec
+   predicates under conventions that do NOT follow the formulation (the simulator's half-open
+   occupation with running tasks at their remaining time; chosen runtimes), so that an edit of
+   the formulation shows up as a concrete infeasible plan. *)
+Definition zrange (lo : Z) (n : nat) : list Z := map (fun k => lo + Z.of_nat k) (seq 0 n).
+Definition plan_end (I : pinst) (p : plan) : Z :=
+  fold_right Z.max (pi_now I)
+    (map (fun x => match pl_strategy I x with Some s => pl_start x + st_runtime s | None => pl_start x end) p ++
+     map (fun f => pi_now I + fx_remaining f) (fixed_of I)).
+Definition instants (I : pinst) (p : plan) : list Z := zrange (pi_now I) (Z.to_nat (plan_end I p - pi_now I) + 1).
+
+Definition conv_c10 : conv := mkConv 0 0 0 false false (fun _ => true) false.
+Definition conv_c12 : conv := mkConv 0 0 0 false false (fun _ => true) true.
+Definition contract_okb (I : tinst) (p : plan) : bool :=
+  let PI := to_pinst I in
+  nodupb (map pl_task p) && forallb (pl_wellformedb PI) p && forallb (timing_okb conv_c10 PI) p &&
+  capacity_okb_at conv_c10 PI p (instants PI p).
+Definition precedence_c11b (I : tinst) (p : plan) : bool :=
+  forallb (precedence_okb conv_c10 (to_pinst I) p) p.
+Definition deadlines_c12b (I : tinst) (p : plan) : bool :=
+  negb (ti_enforce I) || forallb (timing_okb conv_c12 (to_pinst I)) p.
+
+(* answer to one offered task under enforce_deadlines, by the documented rule (independent of the source):
+   hopeless = deadline < now + fastest.  A hopeless task is not placed; the CPLEX scheduler cancels it and
+   cancels nothing else; the Gurobi scheduler never cancels. *)
+Definition hopeless_answer_okb (deadline now fastest : Z) (placed cancelled cplex : bool) : bool :=
+  let h := deadline <? now + fastest in
+  (negb h || negb placed) && (if cplex then Bool.eqb cancelled h else negb cancelled).
